@@ -134,6 +134,23 @@ Section WithMac.
     end.
 End WithMac.
 
+(** ** Reads over time: the nonces one client sends
+
+    The client side of a read picks the nonce: PrivClient::get (OsRng, 32 bytes),
+    ExternalPersistHelper::new_nonce (the entropy source's 32 bytes; vls-util init_state, which
+    vlsd's signer calls, and vls-frontend's lss client pass it on unchanged).  A nonce is
+    _fresh_ when it was not used before in this history.  [nonces_fresh ns] — [ns] in the order
+    the requests were sent — says that every nonce is 32 bytes long and differs from all
+    earlier ones.  It is the premise of the replay theorems AND it is evaluated by the driver
+    on the nonces the harness observes on the wire (case [CNonces]), so it is checked on the
+    implementation, not assumed. *)
+Fixpoint nonces_fresh_from (used ns : list bytes) : bool :=
+  match ns with
+  | [] => true
+  | n :: t => (length n =? 32)%nat && negb (existsb (beq n) used) && nonces_fresh_from (n :: used) t
+  end.
+Definition nonces_fresh (ns : list bytes) : bool := nonces_fresh_from [] ns.
+
 (** ** Witnesses of the three collision classes (used by Props/C17.v and replayed on the
     real functions by the harness; "a" = 97, "b" = 98, "k" = 107, "K" = 75) *)
 Definition two56 : N := 72057594037927936.
